@@ -320,6 +320,8 @@ func run(c *rig.Ctx) {
 		c.DistinctOnly(rig.Hash(uint64(i), uint64(qc), uint64(qs), r.U64()))
 	})
 
+	waveWrites(c)
+
 	// (3) no outputs attached: the same schedules must run and deliver nothing
 	c.Part("nil", c.N(8, 64), func(i int64, r *rig.Rng) {
 		total := int64(300000)
